@@ -119,9 +119,9 @@ PROPS["C17"] = dict(
     trusted_base=["flock(2) semantics, thread shutdown and the final journal sync at drop are runtime behaviour: exercised, not proved",
                   "the Dir model abstracts the directory to (marker bytes, 0.jnl present, mutation counter, live-handle count)"],
     assumptions=["one process; handles of all kinds share one lock guard (read from the source: LockedFileGuard is an Arc cloned into every Keyspace)"],
-    level_text="Lean 4 theorems about the version gate (all byte strings) and the open/lock state machine (all open/clone/drop sequences); partial: "
-               "OS locking, worker shutdown and drop-time sync are exercised by the engine, not modelled. The 'marker absent' clause is false on "
-               "the unchanged code (known finding F12) and stated as a counterexample theorem",
+    level_text="Lean 4 theorems about the version gate (all byte strings), the open/lock state machine (all open/clone/drop sequences) and the refusal of a directory "
+               "whose marker is absent (after fix F12); partial: OS locking, worker shutdown and drop-time sync are exercised by the engine (incl. drop with background work "
+               "pending or still running), not modelled",
     level_note="partial: flock/thread/drop behaviour trusted; model granularity is the directory-level state machine",
     technique="Lean 4 proof (case analysis on marker bytes; state-machine invariants) + differential correspondence",
     design_ref="6 C17",
@@ -151,8 +151,9 @@ PROPS["C05"] = dict(
     trusted_base=["stage 1 covers the tracker; version history (lsm-tree SuperVersions) and iterators are modelled in later stages",
                   "DashMap/RwLock atomicity of single tracker operations is trusted"],
     assumptions=["each SnapshotNonce is closed exactly once (Clone/Drop discipline)"],
-    level_text="Lean 4 invariant proof over all tracker histories and all DashMap visiting orders (stage 1 of the C05 chain), tied to the real "
-               "SnapshotTracker by step-by-step comparison of its observables; the view-stability and iterator theorems are being added",
+    level_text="Lean 4 invariant proofs: the tracker (all histories, all DashMap visiting orders: the watermark never passes a live instant) and the Conc model "
+               "(all schedules: two-step open under the shared GC lock, write floor, registrations, GC after rotations / ingestions), tied to the real SnapshotTracker by "
+               "step-by-step comparison of its observables, a frozen-content oracle on real views (snapshots, clones, iterators) and schedule-controlled real threads",
     level_note="partial: thread schedules and lsm-tree's version history are trusted/exercised",
     technique="Lean 4 proof (inductive invariant over operation histories) + differential correspondence",
     design_ref="6 C05",
@@ -296,9 +297,9 @@ PROPS["C04"] = dict(
     trusted_base=DB_TB,
     assumptions=["ingested tombstones (known finding F13-ingest) and compaction filters (C18) are outside the theorem's hypothesis ProgWF", "single thread",
                  "the highest persisted seqno observed after a compaction satisfies KsL.physOk (a newest-for-its-key value is never dropped); the driver checks this on every observed value"],
-    level_text="Lean 4 theorem: recovery reproduces every keyspace for all histories without journal rotation (inductive coverage invariant: seqno order, journaled part of the tables, "
-               "stale re-replayed tail, no live value above the persisted seqno; re-applying a tombstone-only segment is invisible), "
-               "tied to the real crate by an engine that also exercises sealed journals, eviction, deletion and crash images",
+    level_text="Lean 4 theorem: recovery reproduces every keyspace for all histories incl. journal rotation, eviction of sealed journals, ingestion of values, tombstone eviction and earlier reopens "
+               "(inductive coverage invariant DInv: seqno order within and across journal files, watermarks cover what is only in memory, stale re-replayed tails are invisible), "
+               "tied to the real crate by an engine that replays the same histories, takes crash images and issues refused (invalid-key) operations",
     level_note="the theorem covers sealed journals and eviction; compaction filters and ingested tombstones are outside ProgWF (known findings F13)",
     technique="Lean 4 proof (coverage invariant over operation histories, last-writer-wins idempotence) + differential correspondence",
     design_ref="6 C04",
@@ -341,7 +342,8 @@ PROPS["C10"] = dict(
          "lowers the model's value); crash images after evictions; 'flush every keyspace + maintenance => one journal file' as an implementation-only oracle",
     trusted_base=DB_TB,
     assumptions=["crash = process crash at an operation boundary (files as of the last completed operation); torn tails are C03"],
-    level_text="Lean 4 theorems about the eviction rule and the rotation watermarks; the end-to-end 'crash after unlink loses nothing' is checked on crash images by the engine",
+    level_text="Lean 4 theorems about the eviction rule and the rotation watermarks, and end to end: in every reachable state a crash right after an eviction loses nothing; "
+               "tied to the code by journal counts after every event, crash images after evictions and writers racing journal rotations",
     level_note="partial: end-to-end theorem over sealed journals is stage 2; the real >64 MB trigger is replaced by a hook calling the same rotate_journal",
     technique="Lean 4 proof (prefix-removal induction, fold maximum) + differential correspondence",
     design_ref="6 C10",
@@ -428,7 +430,8 @@ PROPS["C13"] = dict(
          "operations. non-trivial = the first failing operation is neither the first nor the last",
     trusted_base=WR_TB + JOURNAL_TB,
     assumptions=["one writer thread (the poison flag is read under the journal lock; multi-thread clause is the Conc stage)"],
-    level_text="Lean 4 theorem: fail-stop for all workloads and fault plans on the modelled write paths; tied to the code by injecting the same faults into a real process",
+    level_text="Lean 4 theorem: fail-stop for all workloads and fault plans (permanent or transient, failing or short system calls) on the modelled write paths; tied to the "
+               "code by injecting the same faults into a real process",
     level_note="partial: multi-threaded writers and worker-thread poisoning are not in the model",
     technique="Lean 4 proof (case analysis of every write path, induction over the workload) + fault-injection correspondence",
     design_ref="6 C13",
@@ -532,8 +535,8 @@ PROPS["C14"] = dict(
                  "bounded channel, journal lock), tied step by step by the stall engine (half of its cases with a worker channel of 2-6 messages through the capacity hook, so that a full channel is reached) "
                  "and at scenario level by the stall probe and the worker-channel probe (the real capacity of 1000); L0-run throttling (sleep loops on l0_run_count), worker 0 handing compactions on, several keyspaces and compaction progress inside lsm-tree are not "
                  "modelled; fairness of the OS scheduler is assumed"],
-    level_text="Lean 4 theorems over all programs and schedules (linearization by forward simulation with explicit linearization points, bracket discipline of the history, order agreement); "
-               "tied to the real crate by schedule-controlled runs of real threads",
+    level_text="Lean 4 theorems over all programs and schedules (linearization by forward simulation with explicit linearization points, bracket discipline of the history, order "
+               "agreement) and, for the write halt, deadlock freedom + bounded work of the Stall model; both tied to the real crate by schedule-controlled runs of real threads",
     level_note="journal rotation and flush content are covered sequentially (C01/C04/C10); liveness = deadlock freedom + bounded work on the Stall model, tied by the stall engine",
     technique="Lean 4 proof (forward simulation to a sequential map, history invariants) + schedule-controlled differential correspondence",
     design_ref="6 C14",
